@@ -18,7 +18,7 @@ SOURCES = [('param/parameterized.py', 'Parameters._cls_parameters'), ('param/par
 BUDGET_S = {'quick': 45, 'thorough': 400}
 EXHAUSTIVE = {'quick': False, 'thorough': False}
 TRUSTED = [
-    'statements in lean/ParamVerif/Props/C13.lean (Coherent, Agrees, okSeq = "no add_parameter call fails in its merge re-validation")',
+    'statements in lean/ParamVerif/Props/C13.lean (Inv, InstOk, Agrees; namespace_agrees holds for all histories, failing add_parameter calls included)',
     'spec-side oracle lean/ParamVerif/Store/NamespaceSpec.lean (decidable restatement of Agrees on observations)',
     'harness/props/c13.py adapter (reports n in X.param, identity of X.param[n] / objects("existing")[n] against inspect.getattr_static '
     'and the per-instance copy, .default, getattr, values(), serialize_parameters(), list(X.param); Parameter identity = creation index)',
@@ -26,7 +26,7 @@ TRUSTED = [
     'CPython attribute lookup along the MRO (the MRO of every class is computed by Python and sent with the case), dict order, copy.copy',
 ]
 ASSUMPTIONS = [
-    'all Parameters of a history are param.String(default=str(d), regex="^[0-hi]$") (not Dynamic; 75% of random histories, all exhaustive ones) '
+    'all Parameters of a history are param.String(default=str(d), regex="^[0-hi]$") (not Dynamic; 50% of random histories, all exhaustive ones) '
     'or param.Integer(default=d, bounds=(None, hi)) (Dynamic), with an explicit default; values are the ints 0..9',
     'the inherited `name` parameter is filtered out of every observation; watchers, dynamic values and '
     'Parameter-valued class assignment (`C.y = param.Integer()`, which never updates a cache and leaves the Parameter unnamed) are outside the model',
@@ -321,7 +321,7 @@ def _random_case(rng):
         else:
             op = {'op': 'instParam', 'i': rng.randrange(ninst), 'n': n}
         ops.append(op)
-    return _finish(shape, decls, ops, 'random', rng, kind='Integer' if rng.random() < 0.25 else 'String')
+    return _finish(shape, decls, ops, 'random', rng, kind='Integer' if rng.random() < 0.5 else 'String')
 
 
 def cases(rng, tier, worker, nworkers):
@@ -417,19 +417,6 @@ def shrink(case):
 
 
 def classify(case, impl, fail):
-    """narrow keys of KNOWN_FINDINGS.txt"""
-    import re
-    if fail.get('kind') != 'counterexample' or not isinstance(impl, dict) or 'steps' not in impl:
-        return None
-    why = str(fail.get('why'))
-    if case['kind'] == 'Integer' and re.match(r"after step \d+: instance \d+ '\w+': (\.param\.values\(\)|serialisation) gives", why):
-        return 'dynamic-type-values-read-instance-copy-default'
-    m = re.match(r"after step (\d+): (?:class|instance) \d+ '(\w+)'", why)
-    if not m:
-        return None
-    k, name = int(m.group(1)), m.group(2)
-    # a failed add_parameter(name) at or before the failing step, and every earlier observation agreed
-    for st, o in zip(case['steps'][:k + 1], impl['steps'][:k + 1]):
-        if st['op'] == 'addParam' and st['n'] == name and o['res'] == 'RuntimeError':
-            return 'failed-add-parameter-stale-cache'
+    """no open finding for C13: the failed-add_parameter stale cache (9350ff5) and the Dynamic-type values()
+    reading the per-instance copy's default (9f6df2c) are repaired in /repo; their histories are in corpus/C13"""
     return None
